@@ -114,10 +114,11 @@ Theorem C07_metrics_partial : forall a b c d w x y z,
   (C07_qcip_b1_R a b c d w x y z = C07_qcip_s_R a b c d w x y z \/ C07_qcip_s_R a b c d w x y z = Val [0]) /\
   (forall k_a k_b k_c k_d k_w k_x k_y k_z,
    C07_qeip_b2_R k_a k_b k_c k_d k_w k_x k_y k_z a b c d w x y z = C07_qeip_s_R a b c d w x y z
-   \/ C07_qeip_s_R a b c d w x y z = Val [0]).
+   \/ C07_qeip_s_R a b c d w x y z = Val [0]) /\
+  (C07_qad_b1_R a b c d w x y z = C07_qad_s_R a b c d w x y z \/ C07_qad_s_R a b c d w x y z = Val [0]).
 Proof.
   intros. split; [apply qdist_twin_partial|]. split; [apply qeip_twin_partial|]. split; [apply qcip_twin_partial|].
-  intros. apply qeip_twin2_partial.
+  split; [intros; apply qeip_twin2_partial|apply qad_twin_partial].
 Qed.
 Print Assumptions C07_metrics_partial.
 
@@ -130,6 +131,13 @@ Proof.
   intros. split; [apply euclidean_twin|]. split; [apply euclidean_twin2|apply rmse_twin].
 Qed.
 Print Assumptions C07_euclidean_rmse_branches_agree.
+
+(* rmse_matrices: one 3x3 pair (mean over 9 entries) equals the one-row batch (mean of the row means) *)
+Theorem C07_rmse_matrices_branches_agree : forall r00 r01 r02 r10 r11 r12 r20 r21 r22 s00 s01 s02 s10 s11 s12 s20 s21 s22,
+  C07_rmse_matrices_b1_R r00 r01 r02 r10 r11 r12 r20 r21 r22 s00 s01 s02 s10 s11 s12 s20 s21 s22 =
+  C07_rmse_matrices_s_R r00 r01 r02 r10 r11 r12 r20 r21 r22 s00 s01 s02 s10 s11 s12 s20 s21 s22.
+Proof. exact rmse_matrices_twin. Qed.
+Print Assumptions C07_rmse_matrices_branches_agree.
 
 (* lifting to all N >= 0 rows: an array entry point that treats the row axis by broadcasting or by a loop is the map of
    its row function (Gallina model `batch`); row-wise equality with the scalar entry point then gives batch = map scalar,
